@@ -125,6 +125,41 @@ func c02Run(c c02Case) error {
 	if err := checkCellUniform(sp, cell, valid); err != nil {
 		return err
 	}
+	// a recipe easily confused with this one, enumerated right afterwards in the
+	// same process, must be uniform over ITS valid strings
+	if cell.Leaves <= 600 {
+		for i, sib := range gen.Siblings(sp) {
+			if rf, b := sib.Feasibility(spg.MaxTrials, spg.MaxFailRate); rf || b {
+				continue
+			}
+			sv, ok := sib.ValidStrings(5000)
+			if !ok {
+				continue
+			}
+			sr := toRecipe(sib)
+			sref, err := findRef(sr, c.Key^uint64(i+1), 400)
+			if err != nil {
+				if ev.IsSkip(err) {
+					continue
+				}
+				return fmt.Errorf("sibling recipe %+v after %+v: %w", sib, sp, err)
+			}
+			sc, err := enumCell(sr, sref, nil, 5010)
+			if err == nil {
+				err = checkCellUniform(sib, sc, sv)
+			}
+			if err != nil {
+				if _, inc := err.(*ev.Inc); inc {
+					return err
+				}
+				return fmt.Errorf("sibling recipe %+v used after %+v: %w", sib, sp, err)
+			}
+			ev.Class("sibling_cell_enumerated")
+			if i >= 2 {
+				break
+			}
+		}
+	}
 	// the same cell behind r rejected candidates; and the end of the budget
 	if cell.NRejected > 0 {
 		for _, np := range c.Prefixes {
